@@ -46,7 +46,7 @@ def gen_collection_case(g: VGen, opts: dict) -> dict:
             # a random valid/invalid pattern: replace a random subset of the elements
             for i in range(len(x["xs"])):
                 if r.random() < 0.5:
-                    x["xs"][i] = g.hashable_val() if x["t"] == "set" else g.mutate(x["xs"][i])
+                    x["xs"][i] = g.hashable_val() if x["t"] == "set" else g.mutate(x["xs"][i], root=False)
             if x["t"] == "set":
                 x["xs"] = g.distinct(x["xs"])
     return {"env": g.env, "v": v, "x": x, "stream": stream, "classes": g.classes}
@@ -165,7 +165,7 @@ def gen_record_case(g: VGen, opts: dict) -> dict:
                     continue
                 val = g.conform(cv)
                 if c > 0.7:
-                    val = g.mutate(val)
+                    val = g.mutate(val, root=False)
                 kvs.append([dk, val])
             if r.random() < 0.3:
                 kvs.append([r.choice([{"t": "str", "s": [122, 122]}, {"t": "int", "i": 77}]), g.hostile(2)])
